@@ -43,14 +43,18 @@ MANIFEST = {
                   "mean/covariance of the joint Gaussian of (state, observations) given the prediction; conditioning "
                   "sequentially equals conditioning on the stacked vector (mean, covariance, density: Schur complement "
                   "inverse and determinant); the likelihood is the sum of the predictive Gaussian negative log densities; "
+                  "by induction over the periods the filtered moments after any number of periods are the conditional moments "
+                  "given all data so far and the reported likelihood is the negative log density of the stacked data; "
                   "contributions sum to the total for rescale_variance in {True, False}; empty periods contribute 0 and leave "
                   "the state unchanged; var_scale and the concentrated likelihood formula.",
-    "level_note": "PARTIAL: the induction that turns `one step = conditioning` + tower law into `filtered moments and likelihood = "
-                  "batch conditioning on all past data` is not carried out in Coq, nor is optimality of the smoothed moments; both "
-                  "are checked numerically by the falsifier (dense conditioning of the stacked Gaussian) on every run.  Trusted: "
-                  "Coq kernel + vm_compute, harness, Gauss-Jordan vs LAPACK, recorded initial condition checked against its "
-                  "defining equations.  Not covered: unit-root models / GLS initial condition, float rounding, differences "
-                  "below 1e-7 relative.",
+    "level_note": "PARTIAL: the filter part is complete (one step = conditioning, tower law, and the induction over the periods: "
+                  "filtered moments and likelihood = conditioning the stacked Gaussian, C03_filter_is_batch).  Not proved in Coq: "
+                  "that the SMOOTHED means/stds (and smoothed shocks) are the conditional moments given all data, and the batch "
+                  "characterisation of predicted quantities of shocks; these are checked numerically by the falsifier (dense "
+                  "conditioning of the stacked Gaussian) on every run; the smoother's structural identities are under C08.  "
+                  "Trusted: Coq kernel + vm_compute, harness, Gauss-Jordan vs LAPACK, recorded initial condition checked "
+                  "against its defining equations.  Not covered: unit-root models / GLS initial condition, float rounding, "
+                  "differences below 1e-7 relative.",
 }
 
 
